@@ -7,6 +7,36 @@ props = [json.loads(l) for l in open(os.path.join(HERE, 'properties.jsonl'))]
 E1 = "exhaustive bounded input enumeration (deviation-bounded + complete products of small alphabets), every case executed on the real code and judged by an independent reference model"
 # id -> (category, engine, technique, text, note)
 CHECKS = {
+ "C01": ("exploration", "E1", E1,
+   "structural product for ZIP-215: honest signatures, all 8x8 torsion shifts of A and R in every encoding with matching S (must verify) and S+1 (must not), S+j*L for every j that fits 256 bits, all pairs of the 14 small-order and ~40 low-y non-canonical encodings as (A,R) x boundary S values, canonical S with bit 252 set, all single-bit flips of signature and key, all lengths 0..66, off-curve values; every triple judged two-sided by a math/big ZIP-215 predicate and one-sided by crypto/ed25519",
+   "hash pre-images are not enumerable: 'random bytes' is covered structurally; ref/ed validated against RFC 8032 vectors, crypto/ed25519 and filippo decoding"),
+ "C03": ("exploration", "E1+E2", E1 + "; word-list selection: explicit-state search over all operation sequences of length <=4",
+   "both word lists read index by index through the API and compared with the SHA-256 of the official files; every entropy length 0..70; per allowed length every position x all 256 byte values and all position pairs x {00,01,7F,80,FF}^2 on all-00/all-FF (leading-zero runs of every length); decode direction on word indices: every position x all 2048 words, position pairs x a 12-word alphabet, counts 0..51, out-of-list and other-list words, error classes; 1555 selection histories against a one-variable model",
+   "bounded deviation depth 2 from structured bases; quick tier uses lengths {16,20,32,64}, thorough all 13"),
+ "C06": ("model_checking", "E2", "explicit-state breadth-first search over operation histories of the real object (fresh instance + replay), de-duplicated on a hash of all live instances' states, every step compared with a reference model of 64 independent one-lane sponges; repeated in the purego build",
+   "all histories of depth <=4 (thorough 5) over 34 operations (Absorb/Squeeze with batch {1,2,63,64} x {0,1,2} blocks, Clone, Reset, 8 rejected calls): after every step every lane of every live instance (incl. instances left behind by Clone) equals its independent Curl-P-81 sponge, rejected calls leave the state untouched, absorb-after-squeeze is refused without effect; one-hot family for every lane; the same search in the purego build must give identical outputs",
+   "depth bound; 4 block patterns per lane position; reference = one-lane Curl-P-81 validated against testdata and iota.go"),
+ "C07": ("exploration", "E1", E1,
+   "274 seeds (all-00, all-FF, all 256 single-bit seeds, 16 fixed) x every message length 0..130 (thorough 0..300, crossing both SHA-512 padding boundaries of both hashes) x 3 contents: keys and signatures byte-equal to crypto/ed25519, deterministic, accepted by Verify, crypto.Signer wrapper equal, every crypto.Hash 1..19 refused, GenerateKey over scripted readers (short reads, failing reader)",
+   "crypto/ed25519 is the RFC 8032 oracle"),
+ "C09": ("exploration", "E1", E1,
+   "valid sentences of 12/24/48 words in both lists (incl. the NFC spelling of the Japanese one) x all passphrases of length <=2 over a 36-code-point alphabet chosen for NFKD behaviour against an own PBKDF2-HMAC-SHA512 and a table-driven NFKD generated from Python's unicodedata; invalid sentences give an error and no seed; parser: all strings of <=4 (thorough 5) symbols over 14 symbols (letters, kana composed/decomposed, 8 white-space kinds, ZWSP, U+FDFA) and a 3-word sentence with every separator combination, parse(print(parse)) fixpoint",
+   "alphabet restricted to code points assigned before Unicode 13 (x/text v0.4.0 tables); bounded string length"),
+ "C11": ("exploration", "E1", E1 + "; Mine's float zero-count observed through a scripted hash (build overlay) in a single-worker Mine",
+   "lane test for all n=0..243 x every lane / lane pair x zero-count classes; Score against an own BLAKE2b/b1t6/Curl-P-81 chain; real-hash Mine for 1,2,3,16 workers; scripted hash: every message length 8..1100 (thorough: ~7000 lengths up to 40000) x k=0..60 x targets fl(3^k/len) -2..+2 ulp and 13 trivially low targets per length class: the zero count Mine demands must reach the target in Score's own formula and no goroutine may panic",
+   "schedule dimension is covered by C13 with the same validity oracle; targets needing >243 zeros are outside the space"),
+ "C12": ("exploration", "E1", E1 + "; end-to-end pass-over check on real hashes; scripted batches through Mine (build overlay)",
+   "~230 (thorough ~480) configurations with length*target around 3^k (k=2..40), 1 and 2^64 x ~17 hash classes at every threshold of the three-stage lane test x 3 unqualified backgrounds x <=2 deviating lanes x all class pairs, judged by the property itself (returned lane qualifies; a lane with difficulty > length*target is never passed over); toInt on all single-trit and chunk-boundary patterns; Score on real and scripted digests (uint64 path, big-int path, saturation); real single-worker Mine: every nonce of every earlier block checked with a reference difficulty",
+   "bounded configuration set; worker counts >1 soundness only"),
+ "C13": ("model_checking", "E3", "stateless model checking of the real Mine under a controlled scheduler (build overlay routes sync, atomic, channel, select and go through shims): depth-first exploration of all interleavings, unbounded with state-key pruning for N<=2 (thorough N<=3), iterated preemption bound for larger N; separate free-running -race pass",
+   "73 (thorough ~100) closed scenarios = PoW version x N workers x which worker finds in which batch x cancellation never/before/concurrent; every schedule: Mine returns, nonce valid or ErrCancelled only if cancelled, no goroutine panic, no goroutine left behind, no worker ignores the done flag for 4+ batches; every 64th and every violating schedule replayed twice for determinism; data races by a free-running -race pass (sampling, reported separately)",
+   "SC semantics for atomics; a worker that polled 3 times fruitlessly is treated as waiting; unbuffered-channel rendezvous and value-carrying select cases are not modelled (reported as unsupported, never as violation)"),
+ "C18": ("exploration", "E1", E1,
+   "12 (thorough 42) seeds x alphas {empty, every single byte value, ramps up to 40/130 bytes}: proofs byte-equal to an RFC 9381 reference over math/big (try-and-increment counters 0..7 all occur), Verify/ProofToHash/Proof.Hash agree; all 640 single-bit flips, s+j*L, Gamma+T for all 8 torsion points, every small-order/non-canonical encoding as Gamma and as key, torsion-shifted keys, forged proofs that only key validation rejects, lengths 0..82: verdict, beta and decode-iff-canonical equal to the reference",
+   "'all 80-byte strings' covered structurally; ref/vrf validated on the RFC's TAI vectors"),
+ "C20": ("model_checking", "E4", "instruction-level explicit execution of the checked-in amd64 assembly text and of the go/ssa form of the portable code in a provenance-tracking executor: single control path executed completely, every memory access bounds-checked, per round all 729 positions x 16 s-box input rows enumerated; conformance of the executors with the native binaries on a structured corpus and with the purego build",
+   "for all 81 rounds of both front ends: reads only the source pair, writes every destination word exactly once, each output word is lane-wise with dependency set = the two positions the definition names and its 64 lanes equal the complete truth table; source/destination swap, round count 81, result in lto/hto; all loads/stores inside the four 729-word buffers; executor results = native assembly = compiled portable code = 64 x one-lane reference on ~500 (thorough ~3000) states; purego build gives identical digests; a purego variant that does not build is reported",
+   "trusts the executor's semantics of ~20 integer instructions / SSA instruction kinds (cross-checked against native code); unsupported instruction => exhaustive:false, never a violation"),
  "C02": ("exploration", "E1+E2", E1 + "; retry branches: explicit-state exploration of every scripted curve-answer sequence (environment answers) up to length 4",
    "three real curves x seeds x all 259 paths of length <=3 over boundary indices: every node (private key, chain code, public key, fingerprint) against a SLIP-0010 reference written from the specification over independent affine math/big arithmetic, the prefix/extension law, undefined derivations; all 90 scripted curve-answer sequences (valid / ErrInvalidKey / wrapped / permanent) with the input of every retry compared to the specification's chain; a toy curve rejecting 3/4 of all candidates over 256 seeds x 21 paths so that hash-driven retries actually occur (histogram in evidence)",
    "bounded seeds/paths; HMAC/SHA/RIPEMD from the standard libraries are trusted; the reference is validated on SLIP-0010 vector 1 for all three curves"),
@@ -62,6 +92,8 @@ m = {
  "engines": [
    {"name": "E1", "path": "harness/checks", "serves_properties": [p for p in ORDER if "E1" in CHECKS[p][1]], "kind_free_text": "deviation-bounded exhaustive input enumeration against reference models (harness/ref)"},
    {"name": "E2", "path": "harness/checks", "serves_properties": [p for p in ORDER if "E2" in CHECKS[p][1]], "kind_free_text": "explicit-state search over operation / environment-answer sequences of the real object against a reference model"},
+   {"name": "E3", "path": "harness/shim/vsched + harness/cmd/rewrite + harness/checks/sched_explore.go", "serves_properties": [p for p in ORDER if "E3" in CHECKS[p][1]], "kind_free_text": "controlled cooperative scheduler with preemption-bounded / state-key-pruned DFS over the real Mine (stateless model checking of the implementation)"},
+   {"name": "E4", "path": "harness/bitexec", "serves_properties": [p for p in ORDER if "E4" in CHECKS[p][1]], "kind_free_text": "instruction-level explicit execution of the assembly text and the go/ssa form with provenance tracking"},
    {"name": "E5", "path": "harness/checks/c16.go", "serves_properties": [p for p in ORDER if "E5" in CHECKS[p][1]], "kind_free_text": "linear syndrome model enumerated exhaustively + conformance replay against the real polymod and Decode"},
  ],
  "checks": checks,
